@@ -73,8 +73,23 @@ struct Payload
     void check() const { if (magic != 0x600D) pmc_fail("payload-use-after-destroy", "a payload object (tag %d) was used after its destruction", tag); }
     ~Payload() { if (magic != 0x600D) pmc_fail("payload-double-destroy", "payload destroyed twice"); magic = 0xDEAD; --live; ++destroyed; }
 };
-struct TaggedError { int tag; };
+struct TaggedError { int tag; Payload p{}; };    // the payload member puts every error object into the lifetime ledger
 
+// an error sent by value (not as exception_ptr): tracked like a payload; constructing it takes time (a
+// scheduling point inside the copy/move constructor), so that two threads storing an error into the same
+// operation state at once become visible as an object constructed on top of a live one
+struct ErrObj
+{
+    static inline int live = 0, constructed = 0, destroyed = 0;
+    int tag;
+    unsigned magic;
+    explicit ErrObj(int t) : tag(t), magic(0xE770) { ++live; ++constructed; }
+    ErrObj(ErrObj const& o) : tag(o.tag) { pmc_point("error-object-copy"); magic = 0xE770; ++live; ++constructed; }
+    ErrObj(ErrObj&& o) noexcept : tag(o.tag) { pmc_point("error-object-move"); magic = 0xE770; ++live; ++constructed; }
+    ErrObj& operator=(ErrObj const& o) { tag = o.tag; return *this; }
+    ErrObj& operator=(ErrObj&& o) noexcept { tag = o.tag; return *this; }
+    ~ErrObj() { if (magic != 0xE770) pmc_fail("payload-double-destroy", "error object destroyed twice"); magic = 0xDEAD; --live; ++destroyed; }
+};
 enum Ch { VAL = 0, ERR = 1, STOP = 2 };
 static const char* chn[] = {"value", "error", "stopped"};
 
@@ -113,6 +128,7 @@ struct Rec
     template <typename T, typename U>
     void set_value(T&& v, U&& u) && noexcept { signalled(); out->tag = tag_of(v); out->tag2 = tag_of(u); ++out->nv; }
     void set_error(std::exception_ptr e) && noexcept { signalled(); out->tag = tag_of_error(e); ++out->ne; }
+    void set_error(ErrObj e) && noexcept { signalled(); out->tag = e.tag; ++out->ne; }
     void set_stopped() && noexcept { signalled(); ++out->ns; }
     constexpr ex::empty_env get_env() const& noexcept { return {}; }
 };
@@ -182,6 +198,44 @@ struct LeafT
     operation_state<R> connect(R&& r) const { return {std::forward<R>(r), ch, deferred, tag}; }
 };
 using Leaf = LeafT<false>;
+// leaf whose error channel carries an ErrObj by value (value channel: Payload)
+struct LeafE
+{
+    PIKA_STDEXEC_SENDER_CONCEPT
+    int ch, deferred, tag;
+    template <template <typename...> class Tuple, template <typename...> class Variant>
+    using value_types = Variant<Tuple<Payload>>;
+    template <template <typename...> class Variant>
+    using error_types = Variant<ErrObj>;
+    static constexpr bool sends_done = true;
+    using completion_signatures = ex::completion_signatures<ex::set_value_t(Payload), ex::set_error_t(ErrObj), ex::set_stopped_t()>;
+    template <typename R>
+    struct operation_state
+    {
+        std::decay_t<R> r;
+        int ch, deferred, tag;
+        int started = 0, completed = 0;
+        operation_state(R&& rr, int c, int d, int t) : r(std::forward<R>(rr)), ch(c), deferred(d), tag(t) {}
+        operation_state(operation_state&&) = delete;
+        ~operation_state() { if (started && !completed) pmc_fail("opstate-destroyed-before-completion", "a started leaf operation state (tag %d) was destroyed before it completed", tag); }
+        void complete() noexcept
+        {
+            completed = 1;
+            if (ch == VAL) ex::set_value(std::move(r), Payload(tag));
+            else if (ch == ERR) ex::set_error(std::move(r), ErrObj(tag));
+            else ex::set_stopped(std::move(r));
+        }
+        static void fire(void* p) { static_cast<operation_state*>(p)->complete(); }
+        void start() & noexcept
+        {
+            started = 1;
+            if (!deferred) complete();
+            else { g_pending[g_npending] = {&fire, this}; ++g_npending; pmc_progress(); pmc_point("leaf-registered"); }
+        }
+    };
+    template <typename R>
+    operation_state<R> connect(R&& r) const { return {std::forward<R>(r), ch, deferred, tag}; }
+};
 static Leaf leaf(int ch, int deferred, int tag)
 {
     if (deferred) ++g_expected_deferred;
@@ -267,6 +321,7 @@ struct Frame
     Frame()
     {
         Payload::live = Payload::constructed = Payload::destroyed = 0;
+        ErrObj::live = ErrObj::constructed = ErrObj::destroyed = 0;
         g_npending = g_fired = g_expected_deferred = 0;
         g_completer_stop = 0;
         g_nq = 0;
@@ -277,6 +332,7 @@ struct Frame
     void finish(const char* what)
     {
         PMC_ASSERT(Payload::live == 0, "payload-leak", "%s: %d payload objects still alive at the end (constructed %d, destroyed %d)", what, Payload::live, Payload::constructed, Payload::destroyed);
+        PMC_ASSERT(ErrObj::live == 0, "payload-leak", "%s: %d error objects still alive at the end (constructed %d, destroyed %d): an error stored by the operation was not destroyed exactly once", what, ErrObj::live, ErrObj::constructed, ErrObj::destroyed);
         check_quarantine();
         g_quarantine = false;
     }
@@ -560,12 +616,24 @@ static void p_more()
         {
         case 0:
         {
+            // first element: a value completed inline, or the same channel/timing as the second one (two errors
+            // or two stopped signals racing each other when both are deferred and two threads complete them)
+            int both = pmc_choose(2, 0);
             std::vector<Leaf> v;
-            v.push_back(leaf(VAL, 0, 1));
+            v.push_back(both ? leaf(ch, def, 1) : leaf(VAL, 0, 1));
             v.push_back(leaf(ch, def, 2));
+            std::thread c2;
+            if (both && def) c2 = std::thread(completer);
             consume(ex::when_all_vector(std::move(v)), o);
+            if (c2.joinable()) { int guard = 0; while (g_fired < g_expected_deferred && ++guard < 4000) sched_yield(); }
             if (ch == VAL) expect(o, VAL, 3, "when_all_vector{a, b}");
-            else expect(o, ch, 2, "when_all_vector{a, b}");
+            else if (!both) expect(o, ch, 2, "when_all_vector{a, b}");
+            else
+            {
+                PMC_ASSERT(o.total() == 1 && o.channel() == ch, "wrong-channel", "when_all_vector of two %s senders completed with %s (%d signals)", chn[ch], o.total() ? chn[o.channel()] : "nothing", o.total());
+                if (ch == ERR) PMC_ASSERT(o.tag == 1 || o.tag == 2, "wrong-payload", "when_all_vector: the error delivered (tag %d) is none of the two upstream errors", o.tag);
+            }
+            if (c2.joinable()) { g_completer_stop = 1; c2.join(); g_completer_stop = 0; }
             break;
         }
         case 1:
@@ -599,6 +667,35 @@ static void p_more()
     pmc_outcome("%d %s", form, o.total() ? chn[o.channel()] : "-");
 }
 
+// errors sent by value, two predecessors failing at the same time on two threads: exactly one error
+// reaches the receiver and every error object that was created is destroyed exactly once
+static void p_two_errors()
+{
+    int form = pmc_choose(2, 0);    // 0 when_all_vector, 1 when_all
+    int cha = 1 + pmc_choose(2, 0), chb = 1 + pmc_choose(2, 0);    // error / stopped
+    Frame fr;
+    Outcome o;
+    {
+        std::thread c(completer), c2(completer);
+        g_expected_deferred += 2;
+        if (form == 0)
+        {
+            std::vector<LeafE> v;
+            v.push_back(LeafE{cha, 1, 1});
+            v.push_back(LeafE{chb, 1, 2});
+            consume(ex::when_all_vector(std::move(v)), o);
+        }
+        else consume(ex::when_all(LeafE{cha, 1, 1}, LeafE{chb, 1, 2}), o);
+        stop_completer(c);
+        c2.join();
+    }
+    PMC_ASSERT(o.total() == 1 && o.nv == 0, "completion-count", "two failing predecessors: %d completion signals (value %d, error %d, stopped %d)", o.total(), o.nv, o.ne, o.ns);
+    if (o.ne) PMC_ASSERT((cha == ERR && o.tag == 1) || (chb == ERR && o.tag == 2), "wrong-payload", "the error delivered (tag %d) is none of the upstream errors", o.tag);
+    else PMC_ASSERT(cha == STOP || chb == STOP, "wrong-channel", "stopped delivered although no predecessor stopped");
+    fr.finish("two_errors");
+    pmc_outcome("%d %s", form, chn[o.channel()]);
+}
+
 #ifndef C03_NO_MAIN
 int main(int argc, char** argv)
 {
@@ -617,6 +714,7 @@ int main(int argc, char** argv)
         {"erased_small_adaptors", p_erased_small, 3, 4, 0.1, 0.1, 1, focus, sites, nullptr},
         {"split_tuple", p_split_tuple<0>, 3, 4, 0.1, 0.1, 1, focus, sites, nullptr},
         {"split_tuple_after_then_stopped", p_split_tuple<1>, 0, 1, 0.02, 0.02, 0, focus, sites, nullptr},
+        {"two_errors_by_value", p_two_errors, 2, 3, 0.05, 0.05, 1, focus, sites, nullptr},
         {"vector_unpack_transfer_syncwait", p_more, 3, 4, 0.1, 0.1, 1, focus, sites, nullptr},
     };
     static const char* assumptions[] = {"sequentially consistent interleavings only", "pipelines of depth 1-2 over a curated adaptor set; leaves complete with value / error / stopped, inline in start or later on a completer thread",
